@@ -92,6 +92,15 @@ def gen(tier, rng):
         ws.append(st)
         extra = "wu=%s ws=%s we=closed limit=3000" % (j(wu), j(ws))
         yield cv_line(pre + head + b"y" * sent, acts, eof=True, extra=extra), {"scenario": "half-close-inside-streamed-body"}
+    # a connection-ending request answered with a body far larger than the socket buffers, read by a slow client: every
+    # byte must arrive before the end of the stream (the writing side must keep blocking after the reading side is gone)
+    for i, (ver, conn, tr) in enumerate([("1.1", "close", "u"), ("1.0", None, "u")] + ([("1.1", "Close", "t"), ("1.0", None, "u")] if tier != "quick" else [])):
+        body = body_bytes("big%d" % i, 1500000)
+        head = ("GET /big%d HTTP/%s\r\nHost: h\r\n%s\r\n" % (i, ver, "Connection: %s\r\n" % conn if conn else "")).encode()
+        pre = ("GET /bp%d HTTP/1.1\r\nHost: h\r\n\r\n" % i).encode()
+        extra = "wu=%s,%s ws=200,200 wrb=%s,%s we=closed rdelay=400 limit=15000" % (hx("/bp%d" % i), hx("/big%d" % i), hx(b"ok"), hx(body))
+        yield (cv_line(pre + head, [action_str([], respond_str(200, b"ok", True)), action_str([], respond_str(200, body, True))],
+                       transport=tr, eof=(i % 2 == 0), extra=extra), {"scenario": "large-answer-slow-reader"})
     # a persistent connection on which the client pauses for longer than any plausible built-in time-out before its next
     # request: nothing ended the connection, so the next request must be served (and nothing unsolicited may arrive)
     for i in range(1 if tier == "quick" else 4):
